@@ -58,7 +58,8 @@ def check_build_order(chk, ix):
     ex1 = st.alloc(HObj("ExTok", {"table": table(["r1", "r2"]), "name": "A", "index": None, "location": "loc"}, label="e1"))
     ex2 = st.alloc(HObj("ExTok", {"table": None, "name": "B", "index": None, "location": "loc"}, label="e2"))
     ex3 = st.alloc(HObj("ExTok", {"table": table(["r3"]), "name": "C", "index": None, "location": "loc"}, label="e3"))
-    outline = st.alloc(HObj("OutlineTok", {"examples": st.alloc(HObj("list", kind="list", items=[ex1, ex2, ex3]))},
+    ex4 = st.alloc(HObj("ExTok", {"table": table([]), "name": "D", "index": None, "location": "loc"}, label="e4"))
+    outline = st.alloc(HObj("OutlineTok", {"examples": st.alloc(HObj("list", kind="list", items=[ex1, ex2, ex3, ex4]))},
                             label="outline"))
     builder = st.alloc(HObj(ix.cls("behave.model:ScenarioOutlineBuilder"), {"annotation_schema": "x"}, label="builder"))
     # iterating a table token iterates its rows
@@ -82,19 +83,19 @@ def check_build_order(chk, ix):
     got = [s.obj(x).fields["of"] for x in items] if items is not None else None
     want = [("e1", "r1"), ("e1", "r2"), ("e3", "r3")]
     if got == want:
-        chk.ok("B1", {"examples": ["e1[r1,r2]", "e2[no table]", "e3[r3]"], "scenarios": got}, nontrivial_key="order")
+        chk.ok("B1", {"examples": ["e1[r1,r2]", "e2[no table]", "e3[r3]", "e4[header only]"], "scenarios": got}, nontrivial_key="order")
     else:
-        _fail(chk, "B1", func, "scenarios=%r" % (got,), "outline with examples e1[r1,r2], e2[no table], e3[r3] expands to %r, "
+        _fail(chk, "B1", func, "scenarios=%r" % (got,), "outline with examples e1[r1,r2], e2[no table], e3[r3], e4[header only] expands to %r, "
               "expected one scenario per row in order %r" % (got, want))
     # B4 (part): building clears the modified mark of every table it used
     chk.rule("B4", WHAT["B4"])
     chk.instance("B4")
-    marks = [s.obj(s.obj(e).fields["table"]).fields.get("modified") for e in (ex1, ex3)]
-    if marks == [False, False]:
+    marks = [s.obj(s.obj(e).fields["table"]).fields.get("modified") for e in (ex1, ex3, ex4)]
+    if marks == [False, False, False]:
         chk.ok("B4", {"build_scenarios": "clears table.modified"}, nontrivial_key="clear mark")
     else:
-        _fail(chk, "B4", func, "modified marks after build=%r" % (marks,), "build_scenarios leaves table.modified=%r: "
-              "the scenarios would be rebuilt on every access (run status lost)" % (marks,))
+        _fail(chk, "B4", func, "modified marks after build=%r" % (marks,), "build_scenarios leaves table.modified=%r for the tables of e1[2 rows], e3[1 row], "
+              "e4[header only]: the scenarios would be rebuilt on every access (run status, skip marks and selections lost)" % (marks,))
 
 
 def check_step_substitution(chk, ix):
